@@ -369,10 +369,7 @@ func (cs *complexShaperIndic) setupMasks(plan *otShapePlan, buffer *Buffer, _ *F
 
 func setupSyllablesIndic(_ *otShapePlan, _ *Font, buffer *Buffer) bool {
 	findSyllablesIndic(buffer)
-	iter, count := buffer.syllableIterator()
-	for start, end := iter.next(); start < count; start, end = iter.next() {
-		buffer.unsafeToBreak(start, end)
-	}
+	syllabicUnsafeToBreak(buffer)
 	return false
 }
 
